@@ -45,9 +45,23 @@ def cases(tier, seed):
     # planner state computed by sampling (quantile divisions): large enough partitions that dask really samples
     for i, (col, np_, kind) in enumerate([("g", 4, "set_index"), ("k", 3, "set_index"), ("f2", 5, "sort_values"), ("g", 6, "sort_values")]):
         yield {"big": [col, np_, kind, i], "forms": FORMS}
+    # sources the random layouts never produce: from_pandas has to SORT an unsorted index itself (sort=True)
+    for i, (steps, out) in enumerate(SCRIPTED_STEPS):
+        for np_ in (1, 3):
+            yield {"prog": {"tables": [{"seed": 31 + i, "n": 24, "index": "unsorted", "ridbase": 0}], "sources": [{"table": 0, "layout": {"kind": "from_pandas", "npartitions": np_, "sort": True}}],
+                            "steps": steps, "out": out}, "forms": FORMS}
     profiles = ["planner_state", "default", "planner_state", "structure", "projection", "blockwise"]
     for i in range(CONFIG[tier]["programs"]):
         yield {"gen": [seed, i], "profile": profiles[i % len(profiles)]}
+
+
+SCRIPTED_STEPS = [
+    ([{"op": "proj_list", "in": [0], "p": {"cols": ["g", "rid"]}}], 1),
+    ([{"op": "abs", "in": [0], "p": {"cols": ["g", "u"]}}], 1),
+    ([{"op": "proj_list", "in": [0], "p": {"cols": ["k", "g", "rid"]}}, {"op": "abs", "in": [1], "p": {"cols": ["g", "rid"]}}], 2),
+    ([{"op": "set_index", "in": [0], "p": {"col": "u", "drop": True}}], 1),
+    ([{"op": "reset_index", "in": [0], "p": {}}], 1),
+]
 
 
 def canary_prog():
